@@ -370,7 +370,8 @@ def random_c20(digital_rf, root, rng, name):
     tpl, leaves = random_schema(rng, uniform)
     cfg = random_config(rng, leaves, small=True)
     cap = max(1, (cfg.fc * cfg.n) // cfg.d)
-    w = md.MdWorld(digital_rf, root, cfg, deep=True, rf=dict(fc_ms=cfg.fc * 1000, sc=cfg.sc, cont=rng.random() < 0.5))
+    late_md = rng.random() < 0.3      # the metadata channel comes into being with its first write call
+    w = md.MdWorld(digital_rf, root, cfg, deep=True, rf=dict(fc_ms=cfg.fc * 1000, sc=cfg.sc, cont=rng.random() < 0.5), late_md=late_md)
     tops = cfg.tops()
     nid = [0]
 
@@ -379,9 +380,12 @@ def random_c20(digital_rf, root, rng, name):
         w.new_reader(nid[0], kind)
         return nid[0]
 
-    old_md = newr("md")      # before the first metadata write
+    old_md = None if late_md else newr("md")      # before the first metadata write
     w.rf_write(rng.randint(1, cap + 1))
     old_rf = newr("rf")      # before the first metadata write; RF data partly still in the open tmp file
+    if late_md or rng.random() < 0.3:
+        # asked for the channel's metadata while there is none yet
+        w.read(old_rf, 0, rng.randint(0, 5), [], rng.choice(["none", "ffill"]), api="rfmeta")
     stored = set()
     known = set()
     late_first = rng.random() < 0.4
@@ -425,7 +429,17 @@ def random_c20(digital_rf, root, rng, name):
         if rng.random() < 0.25:
             w.age(cfg.fc + rng.randint(1, 7200))       # every file is now older than the file cadence
         # a round of read-only calls by old and new readers of each kind
+        if old_md is None and not stored:
+            # no metadata channel yet: only the RF readers can be asked
+            new_rf = newr("rf")
+            for rid in (old_rf, new_rf):
+                w.read(rid, 0, rng.randint(0, 5), [], rng.choice(["none", "ffill"]), api="rfmeta")
+                for what in rng.sample(["channels", "props", "bounds", "read", "blocks", "fileprops"], 2):
+                    w.rf_obs(rid, what)
+            continue
         new_md, new_rf = newr("md"), newr("rf")
+        if old_md is None:
+            old_md = new_md
         mdr, rfr = [old_md, new_md], [old_rf, new_rf]
         if stored:
             # the samples just written (wherever they lie: the newest one, or one filled in below) must be visible to both
